@@ -68,6 +68,43 @@ class Ctx:
         self.extra.setdefault("explorations", []).append(dict(name=name, stats=st, wall_s=round(r.get("wall_s", 0), 1)))
         return r
 
+    # ---- M3: real executions recorded as traces and validated by TLC against spec/Trace_Stream.tla
+    def trace_validate(self, cfgs, inputs_file, max_events=2000, corrupt=None, name="traces"):
+        d = vlib.scratch("trace")
+        tr = os.path.join(d, "trace.ndjson")
+        extra = dict(trace_out=tr, max_events=max_events)
+        if corrupt is not None: extra["corrupt_call"] = corrupt
+        r = vlib.run_job(dict(mode="trace", cfgs=cfgs, inputs_file=inputs_file, seed=self.seed, extra=extra), "trace")
+        res = vlib.run_tlc("Trace_Stream", "Trace_Stream.cfg", workers=1, extra_files=[(tr, "trace.ndjson")], timeout=900)
+        out = open(res["out"], errors="replace").read()
+        m = re.search(r'<<\s*"TRACE-RESULT",\s*(\d+),\s*(<<[^<>]*>>),\s*(<<.*?>>)\s*>>\s*Model checking', re.sub(r"\s+", " ", out))
+        lines = open(tr).read().splitlines()
+        shutil.rmtree(res["dir"], ignore_errors=True)
+        if not res["ok"] or not m:
+            shutil.rmtree(d, ignore_errors=True)
+            raise Machinery("trace validation did not complete (TLC rc=%s): %s" % (res["rc"], res["tail"][-1500:]))
+        nlines = int(m.group(1))
+        drift = [int(x) for x in re.findall(r"\d+", m.group(2))]
+        bad = re.findall(r'<<(\d+), "(\w+)">>', m.group(3))
+        self.states += res["distinct"]; self.transitions += res["generated"]
+        self.impl_traces += r["extra"]["traces"]; self.evaluations += r["stats"].get("Calls", 0)
+        self.drift += len(drift)
+        self.extra.setdefault("trace_validation", []).append(dict(name=name, events=nlines, traces=r["extra"]["traces"], call_events=r["extra"]["calls"],
+                                                                  accepted=True, drift_lines=drift[:20], property_failures=len(bad), tlc_wall_s=round(res["wall"], 1)))
+        if len(self.samples) < 12 and len(lines) > 3:
+            self.samples.append(dict(source="recorded trace (validated by TLC against Trace_Stream)", case=[json.loads(x) for x in lines[:3]]))
+        for ln, what in bad:
+            ev = json.loads(lines[int(ln) - 1])
+            j = int(ln) - 1
+            while j >= 0 and json.loads(lines[j]).get("ev") != "new": j -= 1
+            hist = [json.loads(x) for x in lines[max(j, 0):int(ln)]]
+            wire = [b for e in hist if e.get("ev") == "send" for b in e["bytes"]]
+            prop = "C04" if what == "sane" else ("C01" if hist and hist[0].get("cfg", {}).get("kind") == "msg" else "C02")
+            self.violation(dict(property=prop, what="property formula false on logged real values (%s)" % what, cfg=hist[0].get("cfg") if hist else {},
+                                input=wire, text=repr(bytes(wire)), sig="trace-" + what, detail=json.dumps(ev)[:1500]))
+        shutil.rmtree(d, ignore_errors=True)
+        return drift, bad
+
     # ---- violations / known findings
     def violation(self, v):
         for k in self.kf.get("known", []):
@@ -218,7 +255,9 @@ def plan_C02(ctx):
                          "(verdict, offset; values when definitive, full object state when suspended => all 2^(n-1) "
                          "schedules by induction).  non-trivial = input with >= 1 suspension and a definitive verdict.")
     scalar_models(ctx)
+    sub_traces(ctx, 700 if ctx.quick else 4000)
     explore_sub(ctx, ["C02"], start=(0, 3))
+    cleanup(ctx)
     ctx.need("inputs with a suspension and a definitive verdict", ctx.nontrivial, 1000)
 
 def plan_C03(ctx):
@@ -236,6 +275,7 @@ def plan_C04(ctx):
                          "Code: every real call made by the explorations (fresh, resumed, shifted) runs under recover + watchdog; "
                          "offsets checked; every exported PField dereferenced against the visible buffer (exact capacity).")
     scalar_models(ctx)
+    sub_traces(ctx, 400 if ctx.quick else 2500)
     explore_sub(ctx, ["C04"], start=(0, 3), shifts=[1, 65000])
     ctx.need("real calls", ctx.evaluations, 100000)
 
@@ -298,6 +338,47 @@ def msg_cfgs(rot):
 def cleanup(ctx):
     for d in getattr(ctx, "_tmp", []): shutil.rmtree(d, ignore_errors=True)
 
+TRACE_CFGS = [mk(), mk(flags=5, hcap=1, ccap=0), mk(flags=2, hcap=64, ccap=64), mk("headersb", hcap=2, ccap=1), mk("hdrlineb", ccap=1),
+              mk("cseq"), mk("clen"), mk("callid"), mk("fline"), mk("nameaddr", flags=8), mk("nameaddr", flags=1), mk("contacts", ccap=0),
+              mk("contacts", ccap=2), mk("pais"), mk("uriparams", flags=72, pcap=1), mk("tokparam", flags=8), mk("msg", start=3)]
+
+def atom_inputs(ctx, atoms, nmax, count, seed):
+    """seeded random atom strings (inputs of recorded traces)"""
+    rnd = random.Random(seed)
+    d = vlib.scratch("atoms"); path = os.path.join(d, "in.ndjson")
+    with open(path, "w") as f:
+        for _ in range(count):
+            k = rnd.randint(1, nmax); w = []
+            for _ in range(k): w += rnd.choice(atoms)
+            f.write(json.dumps(w) + "\n")
+    ctx._tmp = getattr(ctx, "_tmp", []) + [d]
+    return path
+
+def sub_traces(ctx, n_events):
+    """M3 for the sub-parser kinds: random atom strings, random schedules, validated against Trace_Stream"""
+    fams = [("num", [mk("uint"), mk("clen"), mk("expires"), mk("callid"), mk("uint", start=3)]), ("cseq", [mk("cseq")]),
+            ("fline_long", [mk("fline"), mk("fline", start=3)]), ("hdrna", [mk("hdrlineb", ccap=1), mk("headersb", hcap=1, ccap=0), mk("headersb", hcap=3, ccap=2)]),
+            ("hdr", [mk("hdrline"), mk("headers", hcap=1)]),
+            ("nameaddr", [mk("nameaddr", flags=h) for h in (1, 2, 8, 13)] + [mk("onepai")]),
+            ("contacts", [mk("contacts", ccap=c) for c in (0, 1, 2)] + [mk("pais")]),
+            ("tokparam_deep", [mk("tokparam", flags=f) for f in F_TOK] + [mk("uriparams", flags=72, pcap=1), mk("urihdrs", flags=136, pcap=2)]),
+            ("quoted", [mk("skipquoted")])]
+    for ak, cfgs in fams:
+        f = atom_inputs(ctx, ATOMS[ak], 8, 400, ctx.seed * 7919 + len(ak))
+        ctx.trace_validate(cfgs, f, max_events=n_events, name="traces " + ak)
+
+def selftest(ctx):
+    """Binding demonstration: corrupt one logged field and require the trace spec to flag exactly that line."""
+    f1, n1 = gen_corpus(ctx, 1, "hdrs", "corpus")
+    drift, bad = ctx.trace_validate(TRACE_CFGS, f1, max_events=600, corrupt=17, name="binding demonstration")
+    cleanup(ctx)
+    if len(drift) != 1 or bad:
+        raise Machinery("binding demonstration failed: corrupted call event 17 -> drift lines %s, property failures %s" % (drift, bad))
+    ctx.notes.append("binding demonstration: the offset of call event 17 was corrupted identically in the real and the paired fresh result; "
+                     "Trace_Stream flagged exactly line %d as model/code divergence and no property failure" % drift[0])
+    ctx.drift = 0
+    print("selftest ok: corrupted line %d flagged" % drift[0])
+
 def plan_C01(ctx):
     ctx.extra["rule"] = ("Behaviours: every message derivable from the TLA+ generator Gen!GenMsg (first line x K header lines from a "
         "44-line pool covering every value parser, folds, compact names, lone CR/LF terminators, WS before ':', empty values x blank "
@@ -314,6 +395,7 @@ def plan_C01(ctx):
     if not ctx.quick:
         f4, n4 = gen_corpus(ctx, 3, "caps", "corpus")
         ctx.explore(dict(mode="explore", props=["C01"], cfgs=msg_cfgs(ctx.seed + 3), inputs_file=f4, mutants=1, light=True), "msg K=3 light")
+    ctx.trace_validate([c for c in TRACE_CFGS if c["kind"] == "msg"], f2, max_events=(2500 if ctx.quick else 12000), name="message traces")
     cleanup(ctx)
     ctx.need("messages with a suspension and a definitive verdict", ctx.nontrivial, 500)
 
@@ -421,4 +503,4 @@ def plan_C10(ctx):
     ctx.nontrivial = ctx.records
     ctx.need("digit strings x positions executed", ctx.records, 2000)
 
-PLANS = dict(C10=plan_C10, C16=plan_C16, C01=plan_C01, C02=plan_C02, C03=plan_C03, C04=plan_C04, C06=plan_C06, C07=plan_C07, C11=plan_C11, C12=plan_C12, C13=plan_C13)
+PLANS = dict(selftest=selftest, C10=plan_C10, C16=plan_C16, C01=plan_C01, C02=plan_C02, C03=plan_C03, C04=plan_C04, C06=plan_C06, C07=plan_C07, C11=plan_C11, C12=plan_C12, C13=plan_C13)
